@@ -30,7 +30,7 @@ def make_log(path, nbytes, shape, rng):
         elif shape == "long":
             body = "y" * 3000 + "\n"
         elif shape == "multiblock":
-            body = "z" * 50 + "\n" + ("\tcontinuation " + "c" * 900 + "\n") * 12      # ~11 KiB per message
+            body = "z" * 50 + "\n" + ("\tcontinuation " + "c" * 900 + "\n") * 22      # ~20 KiB per message (5 blocks of 4096)
         else:  # mixed
             body = ("m" * (40 + (i * 37) % 200) + "\n") + ("  more\n" if i % 7 == 0 else "")
         line = (head + body).encode()
